@@ -506,3 +506,234 @@ theorem C09.same_binding_restarts_nothing :
     lookup st.table 1 = some ⟨s1b, some [⟨5, 10, some 7, 4⟩]⟩ ∧
     lookup st2.table 1 = lookup st.table 1 ∧ st.log = [.load 1] ∧ st2.log = st.log := by
   decide
+
+/-! ### batches: one `Insert` of several documents, a later one refused -/
+
+namespace Uniflow.Runtime
+
+theorem insSpecs_run (st : St) (l : List (Spec × Bool)) : (insSpecs st l).1 = run st (specBatchOps st l) := by
+  induction l generalizing st with
+  | nil => rfl
+  | cons d rest ih =>
+    obtain ⟨s, acc⟩ := d
+    cases acc with
+    | false => simp [insSpecs, specBatchOps, run]
+    | true =>
+      cases hl : lookup st.specs s.id with
+      | some _ => simp [insSpecs, specBatchOps, step, hl, run]
+      | none =>
+        simp only [insSpecs, specBatchOps, step, hl, run, Bool.true_eq_false, reduceCtorEq, ↓reduceIte]
+        exact ih _
+
+theorem insVals_run (st : St) (l : List (Value × Bool)) : (insVals st l).1 = run st (valBatchOps st l) := by
+  induction l generalizing st with
+  | nil => rfl
+  | cons d rest ih =>
+    obtain ⟨v, acc⟩ := d
+    cases acc with
+    | false => simp [insVals, valBatchOps, run]
+    | true =>
+      cases hl : lookup st.vals v.id with
+      | some _ => simp [insVals, valBatchOps, step, hl, run]
+      | none =>
+        simp only [insVals, valBatchOps, step, hl, run, Bool.true_eq_false, reduceCtorEq, ↓reduceIte]
+        exact ih _
+
+theorem specBatchOps_noWatch (st : St) (l : List (Spec × Bool)) : NoWatch (specBatchOps st l) := by
+  induction l generalizing st with
+  | nil => trivial
+  | cons d rest ih =>
+    obtain ⟨s, acc⟩ := d
+    cases acc with
+    | false => simp [specBatchOps, NoWatch]
+    | true =>
+      cases hl : lookup st.specs s.id with
+      | some _ => simp [specBatchOps, step, hl, NoWatch]
+      | none =>
+        simp only [specBatchOps, step, hl, NoWatch, Bool.true_eq_false, reduceCtorEq, ↓reduceIte]
+        exact ih _
+
+theorem valBatchOps_noWatch (st : St) (l : List (Value × Bool)) : NoWatch (valBatchOps st l) := by
+  induction l generalizing st with
+  | nil => trivial
+  | cons d rest ih =>
+    obtain ⟨v, acc⟩ := d
+    cases acc with
+    | false => simp [valBatchOps, NoWatch]
+    | true =>
+      cases hl : lookup st.vals v.id with
+      | some _ => simp [valBatchOps, step, hl, NoWatch]
+      | none =>
+        simp only [valBatchOps, step, hl, NoWatch, Bool.true_eq_false, reduceCtorEq, ↓reduceIte]
+        exact ih _
+
+/-- What a batch never undoes: flags, events already queued, documents already stored. -/
+theorem insSpecs_mono (st : St) (l : List (Spec × Bool)) :
+    (insSpecs st l).1.watching = st.watching ∧ (insSpecs st l).1.ns = st.ns ∧
+    (∀ j, j ∈ st.specEv → j ∈ (insSpecs st l).1.specEv) ∧
+    (∀ j s, lookup st.specs j = some s → lookup (insSpecs st l).1.specs j = some s) := by
+  induction l generalizing st with
+  | nil => exact ⟨rfl, rfl, fun _ h => h, fun _ _ h => h⟩
+  | cons d rest ih =>
+    obtain ⟨s0, acc⟩ := d
+    cases acc with
+    | false => rw [show insSpecs st ((s0, false) :: rest) = (st, Out.bad) from by simp [insSpecs]]; exact ⟨rfl, rfl, fun _ h => h, fun _ _ h => h⟩
+    | true =>
+      cases hl : lookup st.specs s0.id with
+      | some _ => rw [show insSpecs st ((s0, true) :: rest) = (st, Out.dup) from by simp [insSpecs, step, hl]]; exact ⟨rfl, rfl, fun _ h => h, fun _ _ h => h⟩
+      | none =>
+        rw [show insSpecs st ((s0, true) :: rest) = insSpecs { st with specs := put st.specs s0, specEv := emitSpec st s0.ns s0.id } rest from by simp [insSpecs, step, hl]]
+        obtain ⟨h1, h2, h3, h4⟩ := ih { st with specs := put st.specs s0, specEv := emitSpec st s0.ns s0.id }
+        refine ⟨h1, h2, fun j hj => h3 j ?_, fun j s hs => h4 j s ?_⟩
+        · show j ∈ emitSpec st s0.ns s0.id
+          unfold emitSpec; split
+          · exact List.mem_append_left _ hj
+          · exact hj
+        · show lookup (put st.specs s0) j = some s
+          rw [lookup_put]
+          have : ¬ Keyed.key s0 = j := by
+            intro e
+            rw [show Keyed.key s0 = s0.id from rfl] at e
+            rw [← e, hl] at hs; cases hs
+          simp [this, hs]
+
+theorem insVals_mono (st : St) (l : List (Value × Bool)) :
+    (insVals st l).1.watching = st.watching ∧ (insVals st l).1.ns = st.ns ∧
+    (∀ j, j ∈ st.valEv → j ∈ (insVals st l).1.valEv) ∧
+    (∀ j v, lookup st.vals j = some v → lookup (insVals st l).1.vals j = some v) := by
+  induction l generalizing st with
+  | nil => exact ⟨rfl, rfl, fun _ h => h, fun _ _ h => h⟩
+  | cons d rest ih =>
+    obtain ⟨v0, acc⟩ := d
+    cases acc with
+    | false => rw [show insVals st ((v0, false) :: rest) = (st, Out.bad) from by simp [insVals]]; exact ⟨rfl, rfl, fun _ h => h, fun _ _ h => h⟩
+    | true =>
+      cases hl : lookup st.vals v0.id with
+      | some _ => rw [show insVals st ((v0, true) :: rest) = (st, Out.dup) from by simp [insVals, step, hl]]; exact ⟨rfl, rfl, fun _ h => h, fun _ _ h => h⟩
+      | none =>
+        rw [show insVals st ((v0, true) :: rest) = insVals { st with vals := put st.vals v0, valEv := emitVal st v0.ns v0.id } rest from by simp [insVals, step, hl]]
+        obtain ⟨h1, h2, h3, h4⟩ := ih { st with vals := put st.vals v0, valEv := emitVal st v0.ns v0.id }
+        refine ⟨h1, h2, fun j hj => h3 j ?_, fun j v hv => h4 j v ?_⟩
+        · show j ∈ emitVal st v0.ns v0.id
+          unfold emitVal; split
+          · exact List.mem_append_left _ hj
+          · exact hj
+        · show lookup (put st.vals v0) j = some v
+          rw [lookup_put]
+          have : ¬ Keyed.key v0 = j := by
+            intro e
+            rw [show Keyed.key v0 = v0.id from rfl] at e
+            rw [← e, hl] at hv; cases hv
+          simp [this, hv]
+
+theorem insSpecs_announces (st : St) (l : List (Spec × Bool)) (hw : st.watching = true)
+    (i : Nat) (s : Spec) (hnew : lookup st.specs i = none)
+    (hst : lookup (insSpecs st l).1.specs i = some s) (hns : s.ns = st.ns) :
+    i ∈ (insSpecs st l).1.specEv := by
+  induction l generalizing st with
+  | nil => simp only [insSpecs, Bool.true_eq_false, reduceCtorEq, ↓reduceIte] at hst; rw [hnew] at hst; cases hst
+  | cons d rest ih =>
+    obtain ⟨s0, acc⟩ := d
+    cases acc with
+    | false => simp only [insSpecs, Bool.true_eq_false, reduceCtorEq, ↓reduceIte] at hst; rw [hnew] at hst; cases hst
+    | true =>
+      cases hl : lookup st.specs s0.id with
+      | some _ => simp only [insSpecs, step, hl, Bool.true_eq_false, reduceCtorEq, ↓reduceIte] at hst; rw [hnew] at hst; cases hst
+      | none =>
+        simp only [insSpecs, step, hl, Bool.true_eq_false, reduceCtorEq, ↓reduceIte] at hst ⊢
+        by_cases hi : s0.id = i
+        · subst hi
+          obtain ⟨_, _, h3, h4⟩ := insSpecs_mono { st with specs := put st.specs s0, specEv := emitSpec st s0.ns s0.id } rest
+          have hs0 : lookup (put st.specs s0) s0.id = some s0 := by rw [lookup_put]; simp [show Keyed.key s0 = s0.id from rfl]
+          have := h4 s0.id s0 hs0
+          rw [this] at hst
+          injection hst with hst
+          subst hst
+          apply h3
+          show s0.id ∈ emitSpec st s0.ns s0.id
+          simp [emitSpec, hw, hns]
+        · apply ih { st with specs := put st.specs s0, specEv := emitSpec st s0.ns s0.id } hw _ hst hns
+          show lookup (put st.specs s0) i = none
+          rw [lookup_put]; simp [show Keyed.key s0 = s0.id from rfl, hi, hnew]
+
+theorem insVals_announces (st : St) (l : List (Value × Bool)) (hw : st.watching = true)
+    (i : Nat) (v : Value) (hnew : lookup st.vals i = none)
+    (hst : lookup (insVals st l).1.vals i = some v) (hns : v.ns = st.ns) :
+    i ∈ (insVals st l).1.valEv := by
+  induction l generalizing st with
+  | nil => simp only [insVals, Bool.true_eq_false, reduceCtorEq, ↓reduceIte] at hst; rw [hnew] at hst; cases hst
+  | cons d rest ih =>
+    obtain ⟨v0, acc⟩ := d
+    cases acc with
+    | false => simp only [insVals, Bool.true_eq_false, reduceCtorEq, ↓reduceIte] at hst; rw [hnew] at hst; cases hst
+    | true =>
+      cases hl : lookup st.vals v0.id with
+      | some _ => simp only [insVals, step, hl, Bool.true_eq_false, reduceCtorEq, ↓reduceIte] at hst; rw [hnew] at hst; cases hst
+      | none =>
+        simp only [insVals, step, hl, Bool.true_eq_false, reduceCtorEq, ↓reduceIte] at hst ⊢
+        by_cases hi : v0.id = i
+        · subst hi
+          obtain ⟨_, _, h3, h4⟩ := insVals_mono { st with vals := put st.vals v0, valEv := emitVal st v0.ns v0.id } rest
+          have hv0 : lookup (put st.vals v0) v0.id = some v0 := by rw [lookup_put]; simp [show Keyed.key v0 = v0.id from rfl]
+          have := h4 v0.id v0 hv0
+          rw [this] at hst
+          injection hst with hst
+          subst hst
+          apply h3
+          show v0.id ∈ emitVal st v0.ns v0.id
+          simp [emitVal, hw, hns]
+        · apply ih { st with vals := put st.vals v0, valEv := emitVal st v0.ns v0.id } hw _ hst hns
+          show lookup (put st.vals v0) i = none
+          rw [lookup_put]; simp [show Keyed.key v0 = v0.id from rfl, hi, hnew]
+
+end Uniflow.Runtime
+
+/-- **A batch is a history of single inserts.** One `Insert` of several documents leaves the state
+that inserting its accepted documents one by one – up to the first refused one – leaves; those
+single inserts contain no `watch`. So every theorem over histories (`C09.converges`,
+`C09.converges_concurrent` with the inserts as adjacent `store` steps) covers batches, refused or not. -/
+theorem C09.batch_is_a_history (st : St) (ls : List (Spec × Bool)) (lv : List (Value × Bool)) :
+    (insSpecs st ls).1 = run st (specBatchOps st ls) ∧ NoWatch (specBatchOps st ls) ∧
+    (insVals st lv).1 = run st (valBatchOps st lv) ∧ NoWatch (valBatchOps st lv) :=
+  ⟨insSpecs_run st ls, specBatchOps_noWatch st ls, insVals_run st lv, valBatchOps_noWatch st lv⟩
+
+/-- **A refused batch announces every document it stored.** Watching: whatever document a batch
+(refused at some point or not) added to the spec / value store in the runtime's namespace has its
+event in the stream's queue afterwards – nothing is stored silently. -/
+theorem C09.batch_announces_every_stored_document (st : St) (hw : st.watching = true) :
+    (∀ (l : List (Spec × Bool)) (i : Nat) (s : Spec), lookup st.specs i = none →
+      lookup (insSpecs st l).1.specs i = some s → s.ns = st.ns → i ∈ (insSpecs st l).1.specEv) ∧
+    (∀ (l : List (Value × Bool)) (i : Nat) (v : Value), lookup st.vals i = none →
+      lookup (insVals st l).1.vals i = some v → v.ns = st.ns → i ∈ (insVals st l).1.valEv) :=
+  ⟨fun l i s h1 h2 h3 => insSpecs_announces st l hw i s h1 h2 h3,
+   fun l i v h1 h2 h3 => insVals_announces st l hw i v h1 h2 h3⟩
+
+/-- **A refused batch still converges.** The convergence invariant survives a batch on either store,
+whatever document of it is refused and why; hence (`C09.converges_eventually`) once the pending
+events are consumed the table reflects the stores – including the documents 1..k-1 of a batch
+whose document k was refused. -/
+theorem C09.refused_batch_still_converges (st : St) (hg : Good st) (ls : List (Spec × Bool)) (lv : List (Value × Bool)) (i : Nat) :
+    Good (insSpecs st ls).1 ∧ Good (insVals st lv).1 ∧
+    (let st' := (insSpecs st ls).1
+     lookup (drain (st'.specEv.length + st'.valEv.length) st').table i = st'.target i) ∧
+    (let st' := (insVals st lv).1
+     lookup (drain (st'.specEv.length + st'.valEv.length) st').table i = st'.target i) := by
+  have g1 : Good (insSpecs st ls).1 := by
+    rw [insSpecs_run]; exact good_run st _ hg (specBatchOps_noWatch st ls)
+  have g2 : Good (insVals st lv).1 := by
+    rw [insVals_run]; exact good_run st _ hg (valBatchOps_noWatch st lv)
+  exact ⟨g1, g2, (C09.converges_eventually _ g1 i).2.2.2.2, (C09.converges_eventually _ g2 i).2.2.2.2⟩
+
+/-- Non-vacuity: watching, spec 1 loaded; ONE Insert of [spec 2, spec 1 again (refused: id stored),
+spec 3]: the result is `dup`, spec 2 is stored and announced, spec 3 is not stored; after the
+pending event is consumed the table holds spec 2. And a batch whose second document has no id
+(`accepted = false`) behaves the same with result `bad`. -/
+theorem C09.refused_batch_nonvacuous :
+    let st0 : St := load (run { ns := 1 } [.insSpec s1, .insVal v10, .watch]) .all
+    let r := insSpecs st0 [(s2, true), (s1, true), (s3, true)]
+    let r' := insSpecs st0 [(s2, true), (s3, false), (s3, true)]
+    r.2 = .dup ∧ lookup r.1.specs 2 = some s2 ∧ lookup r.1.specs 3 = none ∧ r.1.specEv = [2] ∧
+    lookup r.1.table 2 = none ∧
+    lookup (drain 1 r.1).table 2 = some ⟨s2, some []⟩ ∧ (drain 1 r.1).specEv = [] ∧
+    r'.2 = .bad ∧ r'.1.specEv = [2] ∧ lookup r'.1.specs 3 = none := by
+  decide
